@@ -26,12 +26,12 @@ def E(*outs):
 def base_scenarios():
     S = []
 
-    def add(name, *stages, deep=False, quick=True, repeat=False, sched=True):
+    def add(name, *stages, deep=False, quick=True, repeat=False, sched=True, own=False):
         # deep: family C (thorough bound 2); repeat: family D (k >= 3 growth steps on one address, bound 2);
         # sched: False = family A only, or a list of stages = family B explores only these stages (the rest
         # has exactly the schedule shape of another chain, see the comments at the chain)
         S.append({'name': name, 'stages': [list(st) for st in stages], 'deep': deep or repeat, 'quick': quick,
-                  'repeat': repeat, 'sched': sched})
+                  'repeat': repeat, 'sched': sched, 'own': own})
 
     pay = 'pay'
     # -- fund
@@ -125,6 +125,13 @@ def base_scenarios():
     add('purchase-received-then-spent',
         [tx('T1', 'block', ['ext'], [['r0', 50, pay], ['x', 0, 'purchase_data']])],
         [tx('T2', 'mempool', [['T1', 0]], [['c0', 49, pay]])], sched=False)   # schedule tree of spend-change
+    # -- an output paying US whose claim / support / purchase payload or name is unusual ('OWN' is replaced by every
+    #    (kind, payload, name) of vf.sync_h.own_variants(); for kind 'purchase' it is a payment followed by the
+    #    purchase data); it must be locked value (or, for the purchase, spendable) whatever the payload says, and
+    #    stage 2 spends it again.  OWN sits at position 0 so that the purchase data lands at position 1.
+    add('own-odd-output', [tx('T1', 'block', ['ext'], [['r0', 50, pay]])],
+        [tx('T2', 'block', [['T1', 0]], [['r1', 20, 'OWN'], ['c0', 29, pay]])],
+        [tx('T3', 'mempool', [['T2', 0]], [['c1', 19, pay]])], sched=False, own=True)
     # -- a later transaction spends the third-party output of an earlier one and pays us again
     add('third-output-respent', [tx('T1', 'block', ['ext'], [['r0', 50, pay], ['x', 5, 'K']])],
         [tx('T2', 'block', [['T1', 1]], [['r0', 4, pay]])])
@@ -138,6 +145,14 @@ def with_third(spec, kind):
         s['third_explicit'] = True
         if kind == 'none':
             s['third'] = 'p2pkh'
+    return s
+
+
+def with_own(spec, variant):
+    s = dict(spec)
+    s['own'] = list(variant)
+    s['third'] = 'own:' + '/'.join(variant)      # the label every key / report uses for the decoration
+    s['third_explicit'] = True                   # no third-party output is appended
     return s
 
 
@@ -421,11 +436,14 @@ def plan(ctx):
     items = []
     sets = {}
     for s in base:
-        sets[s['name']] = notification_sets(with_third(s, 'none'))
+        sets[s['name']] = notification_sets(with_own(s, ['claim', 'valid_claim', 'ascii']) if s['own']
+                                            else with_third(s, 'none'))
     # family A: every chain x every third-party output kind, every stage, every notification order, and the
     # restore path; default schedule only (the third-party script only changes what the sqlite job does)
     for kind in ['none'] + H.THIRD_KINDS:
         for s in base:
+            if s['own']:
+                continue
             spec = with_third(s, kind)
             if kind == 'none' and spec.get('third_explicit'):
                 continue
@@ -439,6 +457,18 @@ def plan(ctx):
                     items.append((spec, 'notify', stage, list(order), 0, {'early': False, 'defer': False}))
                 if not few or stage == nst - 1:
                     items.append((spec, 'restore', stage, None, 0, {'early': False, 'defer': False}))
+    # family A, own-output dimension: the chain(s) with an 'OWN' output x every (kind, payload, name); stage 0 is the
+    # same single funding for all of them, so only the stages from the odd output on (+ their restores) are run
+    for s in base:
+        if not s['own']:
+            continue
+        for variant in H.own_variants():
+            spec = with_own(s, variant)
+            for stage, syms in enumerate(sets[s['name']]):
+                if stage == 0:
+                    continue
+                items.append((spec, 'notify', stage, list(syms), 0, {'early': False, 'defer': False}))
+                items.append((spec, 'restore', stage, None, 0, {'early': False, 'defer': False}))
     # family B: schedules.  Every chain without decoration, every stage x every order and the restore path,
     # all schedules within the deviation bound
     b1 = 1
@@ -460,6 +490,8 @@ def plan(ctx):
     if not quick:
         for s in base:
             if not s['deep']:
+                continue
+            if s['own']:
                 continue
             spec = with_third(s, 'none')
             for stage, syms in enumerate(sets[s['name']]):
